@@ -279,8 +279,22 @@ def mon_C06(tr):
     out = []
     ops, obs = tr.case["ops"], tr.res["obs"]
     frozen = {}     # (series index, t) -> value, for t < time at first sight
+    cur = {}        # (series index, current step) -> value read since the last operation that can still change the step's records
     for i, (op, ob) in enumerate(zip(ops, obs)):
         t_now = tr.op_time[i]
+        if op[0] in ("add", "cancel", "resubmit", "cancel_foreign", "cancel_unsubmitted", "exec"):
+            cur.clear()
+        if op[0] == "tick":
+            # what was read for the step that ends here, with nothing happening in between, IS that step's record from now on
+            for k_, v_ in cur.items():
+                frozen.setdefault(k_, v_)
+            cur.clear()
+        if op[0] == "qat" and isinstance(ob, list) and ob and not isinstance(ob[0], E) and op[1] == t_now and len(ob) >= 8:
+            for s in range(8):
+                cur[(s, t_now)] = ob[s]
+        if op[0] == "qseries" and isinstance(ob, list) and ob and all(len(s_) == t_now + 1 for s_ in ob):
+            for s in range(8):
+                cur[(s, t_now)] = ob[s][t_now]
         if op[0] == "qat":
             if isinstance(ob, list) and ob and isinstance(ob[0], E):
                 out.append(V("getters-disagree-on-refusal", i, asked=op[1], now=t_now, got=ob))
